@@ -10,4 +10,12 @@ CONSTANTS
   WithReopen = TRUE
   WithCenter = TRUE
   Repaired = TRUE
+  Contents <- AllContents
+  SizeClasses = {"s", "w+", "m=", "m+", "mm+"}
+  MaxBig = 1
+  WriteLimit = 128
+  MergeLimit = 333
+  CacheChoices = {TRUE, FALSE}
+  ReadOptional = TRUE
+  Purge = TRUE
 CHECK_DEADLOCK FALSE
